@@ -16,7 +16,7 @@ CHECKS = {
  "C10": ("proof: same geometry hints with and without .gz; gzip format only; under the zlib.h contract of inflate no byte lost or duplicated, normal exit only at Z_STREAM_END, every other outcome an exception by value, both inflate loops terminate (decreases clauses over the zlib model); DecompressedFile::read returns exactly the bytes that exist", "container choice in make_image_file outside the verified set; zlib itself assumed"),
  "C11": ("proof for bbcbasic_to_text under the strict write-failure model; dfs: main tail (flush + test of std::cout) and the --help path, type body, write_span of extract-unused, the body-file and .inf write paths of extract-files", "other dfs commands rely on the main-tail check; -D dump contract assumed"),
  "C12": ("proof of path confinement for extract-files and extract-unused; input files (OsFile, gz input) are opened read-only, with an inventory pre-check that these are all the places dfs opens a file", "that no write call is reachable on an input stream is a fact about library calls, outside contracts; the inventory is a static scan, not a proof"),
- "C13": ("proof for the HDFS/Watford probes, the probe order of probe_format / smells_like_acorn_dfs with the variant's sector count, the geometry decisions of probe_geometry (large enough, other side, preference), the header checks of CatalogFragment::valid and what the OpusDiscCatalogue constructor takes from sector 16", "Opus volume-table probe and catalogue validity are unconstrained models; candidate-list plumbing outside"),
+ "C13": ("proof for the HDFS/Watford probes, the probe order of probe_format / smells_like_acorn_dfs with the variant's sector count, the geometry decisions of probe_geometry (large enough, other side, preference), CatalogFragment::valid (header checks and entry loop) and what the OpusDiscCatalogue constructor takes from sector 16", "the decision structure of smells_like_opus_ddos and the entry loop of catalogue validity are unconstrained models; candidate-list plumbing outside"),
  "C14": ("proof for free (used/free arithmetic), extract-unused (span loop + write_span), Catalog::map_sectors, and the gap bookkeeping of space (initial gap, per-entry gap, maybe_gap)", "the ordering loops of space and SectorMap (std::map) outside the verified set"),
  "C15": ("proof for the wildcard -> ERE translation under stated POSIX axioms, the dir/name split of parse_filename, case-insensitive comparison and CatalogEntry::has_name", "regex engine assumed; find_if plumbing and the drive prefix outside"),
  "C16": ("proof for drive-number arithmetic, check_sequence_fits, StorageConfiguration::connect_drives (both policies, unbounded occupancy), ViewFile::connect_drives, one step of main's option loop and the option table", "mount and the MMB history clause outside"),
